@@ -58,9 +58,9 @@ import (
 	"fmt"
 	"math"
 	"os"
+	"regexp"
 	"runtime/debug"
 	"runtime/pprof"
-	"regexp"
 	"sort"
 	"strconv"
 	"strings"
@@ -205,15 +205,6 @@ var nonLayerMTs = []string{
 	"application/vnd.in-toto+json", "application/vnd.oci.empty.v1+json", "application/vnd.cncf.helm.chart.content.v1.tar+gzip",
 	"application/octet-stream", "application/vnd.oci.image.config.v1+json", "application/vnd.dev.cosign.simplesigning.v1+json",
 	"text/plain", "application/vnd.docker.container.image.v1+json", "application/vnd.wasm.content.layer.v1+wasm", "",
-}
-
-func isForeignMT(mt string) bool {
-	for _, f := range layerMTsForeign {
-		if f == mt {
-			return true
-		}
-	}
-	return false
 }
 
 const urlAlphabet = "abcdefghijklmnopqrstuvwxyzABCDEFGHIJKLMNOPQRSTUVWXYZ0123456789-._~/%=&?+:@"
@@ -585,7 +576,7 @@ type memProvider map[digest.Digest][]byte
 
 type memReaderAt struct{ *bytes.Reader }
 
-func (memReaderAt) Close() error { return nil }
+func (memReaderAt) Close() error  { return nil }
 func (r memReaderAt) Size() int64 { return r.Reader.Size() }
 
 func (p memProvider) ReaderAt(ctx context.Context, desc ocispec.Descriptor) (content.ReaderAt, error) {
@@ -1303,7 +1294,7 @@ func main() {
 			"enumerated by containerd's images.ChildrenHandler and labelled by BOTH real writer flavours; every layer descriptor's labels go through the matching real reader; 3 descriptors per manifest and flavour get every subset of <= 3 structural labels removed/corrupted plus 24 random subsets over all labels. "+
 			"non-trivial = the manifest has >= 2 layers and for at least one target a neighbour that HAS URLs was reconstructed and its URL pairing judged; distinct by the manifest description. "+
 			"Stage l3 (FUSE): produced labels are mounted by the real fs.Mount against an in-memory registry and the request log is judged.",
-		40, 3000, body)
+		40, 2000, body)
 }
 
 func body(r *vf.Run) {
@@ -1324,7 +1315,7 @@ func body(r *vf.Run) {
 	}
 	// The code under test is purely sequential and stateless; the harness spreads the
 	// (independent, individually seeded) cases over a few workers for throughput only.
-	n := r.N(400, 12000)
+	n := r.N(400, 8000)
 	const workers = 6
 	var wg sync.WaitGroup
 	var next atomic.Int64
@@ -1351,7 +1342,9 @@ func body(r *vf.Run) {
 		c.hostCalls += x
 	}
 	r.Count("hosts_function_calls", c.hostCalls)
+	r.Logf("main stage done (%d manifests)", n)
 	l3Stage(r)
+	r.Logf("l3 stage done")
 	r.Assume("containerd v2.2.3 images.Children/IsLayerType, snapshots.FilterInheritedLabels, labels.Validate, reference.Parse and go-digest digest.Parse are the trusted definition of enumeration order, layer media types, label validity and well-formedness")
 	r.Assume("URLs contain no ',' and references are well-formed and shorter than 1 KiB (outside what a comma-joined / size-limited label can describe)")
 	r.Assume("descriptors with equal digests denote the same layer: any of their URL lists counts as the neighbour's own")
